@@ -49,11 +49,15 @@ func guessAlg(key *jwk.Key, header *jws.Header) (sig.Algorithm, error) {
 	if algSupported == "" && algRequested == "" {
 		return nil, errors.New("jwt: failed to guess signature algorithm")
 	}
+	alg := algRequested
 	if algSupported != "" {
 		if algRequested != "" && algRequested != algSupported {
 			return nil, fmt.Errorf("jwt: requested alg %q is not supported", algRequested)
 		}
-		return algSupported.New(), nil
+		alg = algSupported
 	}
-	return algRequested.New(), nil
+	if !alg.Available() {
+		return nil, fmt.Errorf("jwt: signature algorithm %q is not available", alg)
+	}
+	return alg.New(), nil
 }
